@@ -9,6 +9,7 @@ C09.b  [order] the plan step is dominated by a test of planExists; writers of pl
 C09.c  definite initialisation of every scalar member of every record of the instance (shares C17.a) -- in particular
        planExists, which the plan step reads on every cycle.
 C09.d  failure priority (shares C08.d).
+C09.e  [must-write] the per-cycle status accumulators are reset on every path through update()/react() after the plan step.
 """
 from lint import facts, ir, effects, anchors, loops, records, cfg as cfgmod
 from rules.c01 import who_may_call, tk_short
@@ -94,6 +95,34 @@ def outcome_rules(run, F, E):
                key='PlanT::clearTasks does not empty the list')
 
 
+def cycle_status_reset(run, F, E):
+    """the per-cycle status accumulators do not survive the cycle: on every path through update()/react() both are reset
+    after the plan step has read them, so a report from an earlier cycle can never warrant a plan outcome later"""
+    M = effects.MustWrites(E)
+    for m in ('update', 'react'):
+        for fn in F.find('R_', m):
+            c = cfgmod.cfg_of(fn)
+            step = [n for n in c.events(('call',)) if n.e.get('m') == 'deepUpdatePlans']
+            ok = len(step) == 1
+            det = None
+            if ok:
+                # the plan step itself must not reset them before reading: take the must-writes *after* the step's own reads,
+                # i.e. of everything from the step to the exit (a reset inside the step, after its read, counts too)
+                mw = M.after(fn, c, step[0])
+                need = {('core', 'planData', 'headStatus', 'result'), ('core', 'planData', 'subStatus', 'result')}
+                ok = need <= mw
+                det = sorted(need - mw)
+            run.ob('C09.e', 'R_::%s resets the cycle status accumulators on every path after the plan step [%s]' % (m, F.label()), ok, where=fn.pat,
+                   detail=det or None, key='R_::%s can carry a task status over into a later cycle' % m)
+    for fn in F.find('PlanDataT', 'clearRegionStatuses'):
+        ws = E.writes_star(fn)
+        run.ob('C09.e', 'clearRegionStatuses resets both accumulators', ws == {('this', 'headStatus', 'result'), ('this', 'subStatus', 'result')}, where=fn.pat,
+               detail=sorted(ws), key='clearRegionStatuses does not reset both accumulators')
+    for fn in F.find('TaskStatus', 'clear'):
+        ws = [(ir.pp(ir.strip(e['l'])), ir.const_val(e['r'])) for e in ir.all_exprs(fn) if e['k'] == 'asg']
+        run.ob('C09.e', 'TaskStatus::clear sets NONE', ws == [('result', 0)], where=fn.pat, detail=ws, key='TaskStatus::clear does not reset to NONE')
+
+
 def plan_exists(run, F, E):
     for fn in F.fns:
         direct = []
@@ -119,6 +148,7 @@ def run(run):
             run.count('fact units')
             outcome_rules(run, F, E)
             plan_exists(run, F, E)
+            cycle_status_reset(run, F, E)
             c08.status_rules(run, F, E)
             records.definite_init(run, 'C09.c', F)
             facts.drop(F)
@@ -137,6 +167,7 @@ def run(run):
     run.floor('C09.b', 20)
     run.floor('C09.c', 100)
     run.floor('C09.d', 20)
+    run.floor('C09.e', 20)
     run.explanation = (
         'Control-dependence rules on updatePlan (callbacks only on their branch edges, mutually exclusive, no firing in the failure '
         'branch, plan cleared afterwards), who-may-call rules for the outcome wrappers, the planExists gate and its writers, the '
